@@ -396,7 +396,8 @@ func (h *authH) sdkMsgGroup() {
 	}
 }
 
-// ---- group P: oracle price submissions
+// ---- group P: oracle price submissions (the forged rows are the regression test of F-10a, fixed by 8ec350f:
+// they must be rejected; an admitted one is the violation forged-signature-admitted:oracle.CreatePrice)
 func (h *authH) oracleGroup() {
 	c := h.c
 	txCfg := c.App.GetTxConfig()
